@@ -49,7 +49,10 @@ subcategory: L
 '''
 CSV_C = 'Pattern,Merchant,Category,Subcategory,Tags\nNETFLIX,Netflix CSV,CsvCat,CsvSub,c\n'
 BROKEN = '[Broken\nmatch: contains(\n'
-FILES = {'a.rules': RULES_A, 'b.rules': RULES_B, 'c.csv': CSV_C, 'broken.rules': BROKEN}
+# the same rule texts with and without an explicit priority (most_specific mode): nothing about a rule may be remembered under its expression text or its name
+RULES_D = '[Costco Gas]\nmatch: contains("COSTCO GAS")\ncategory: Transport\nsubcategory: Fuel\n\n[Costco]\nmatch: contains("COSTCO")\ncategory: Food\nsubcategory: Groceries\n'
+RULES_E = RULES_D + 'priority: 90\n'
+FILES = {'a.rules': RULES_A, 'b.rules': RULES_B, 'c.csv': CSV_C, 'broken.rules': BROKEN, 'd.rules': RULES_D, 'e.rules': RULES_E}
 for n, t in FILES.items():
     open(os.path.join(TMP, n), 'w').write(t)
 
@@ -58,6 +61,7 @@ TXNS = [
     {'description': 'ORD77 SHOP', 'amount': 500.0, 'date': [2025, 2, 5], 'field': {'kind': 'ach'}, 'source': 'S'},
     {'description': 'netflix', 'amount': 5.0, 'date': [2025, 3, 5], 'field': None, 'source': None},
     {'description': 'ZZZ PLAIN', 'amount': 1.0, 'date': [2025, 4, 5], 'field': {'kind': 'none'}, 'source': 'S'},
+    {'description': 'COSTCO GAS #1023', 'amount': 40.0, 'date': [2025, 4, 6], 'field': None, 'source': 'S'},
 ]
 ROWS = {'orders': [{'id': '77', 'item': 'x'}, {'id': '78', 'item': 'y'}]}
 
@@ -79,6 +83,9 @@ DIRECTED = [
     [('load', 'a.rules'), ('load', 'broken.rules'), ('classify', 0)],
     [('load', 'a.rules'), ('load', 'c.csv'), ('classify', 0), ('classify', 2)],
     [('load', 'b.rules'), ('classify', 1), ('classify', 0), ('classify', 1)],
+    [('load_ms', 'd.rules'), ('classify', 4), ('load_ms', 'e.rules'), ('classify', 4)],
+    [('load_ms', 'e.rules'), ('classify', 4), ('load_ms', 'd.rules'), ('classify', 4)],
+    [('load_ms', 'd.rules'), ('classify', 4), ('rewrite', 'd.rules', 'e.rules'), ('load_ms', 'd.rules'), ('classify', 4)],
 ]
 
 DRIVER = r'''
@@ -109,10 +116,11 @@ for op in ops:
         state['transforms'] = mu.get_transforms(p)
         state['rules'] = mu.get_all_rules(p)
         out.append(['loaded', len(state['rules'])])
-    elif op[0] == 'load':
+    elif op[0] in ('load', 'load_ms'):
         p = os.path.join(tmp, op[1]) if op[1] else None
-        state['rules'] = mu.get_all_rules(p)
-        state['transforms'] = mu.get_transforms(p)
+        mode = 'most_specific' if op[0] == 'load_ms' else 'first_match'
+        state['rules'] = mu.get_all_rules(p, match_mode=mode)
+        state['transforms'] = mu.get_transforms(p, match_mode=mode)
         out.append(['loaded', len(state['rules'])])
     elif op[0] == 'classify':
         out.append(classify(op[1]))
@@ -162,8 +170,9 @@ def check_history(hist):
         if op[0] == 'rewrite':
             content[op[1]] = op[2]
             continue
-        if op[0] in ('load', 'load_transforms_first'):
-            last_load = ['load', content.get(op[1], op[1])] if op[1] else ['load', None]
+        if op[0] in ('load', 'load_transforms_first', 'load_ms'):
+            kind = 'load_ms' if op[0] == 'load_ms' else 'load'
+            last_load = [kind, content.get(op[1], op[1])] if op[1] else [kind, None]
             continue
         want = cold(last_load, op)
         if got[i] != want:
